@@ -26,7 +26,7 @@ func livenessStage(rep *Report, name string, cats []*cat.Catalog, b Bounds) {
 		return
 	}
 	os.WriteFile(filepath.Join(dir, "MCLive.tla"), []byte("---- MODULE MCLive ----\nEXTENDS Dig\n====\n"), 0o644)
-	cfg := fmt.Sprintf("SPECIFICATION FairSpec\nCONSTANTS\n  MaxInv = %d\n  MaxFaults = %d\n  FaultKinds = %s\nINVARIANTS C05_StackBound C02_NoReentry\nPROPERTIES C05_Terminates\nCHECK_DEADLOCK FALSE\n",
+	cfg := fmt.Sprintf("SPECIFICATION FairSpec\nCONSTANTS\n  MaxInv = %d\n  MaxFaults = %d\n  FaultKinds = %s\n  FreeOrder = FALSE\nINVARIANTS C05_StackBound C02_NoReentry\nPROPERTIES C05_Terminates\nCHECK_DEADLOCK FALSE\n",
 		b.MaxInv, b.MaxFaults, tlaStrSet(b.FaultKinds))
 	os.WriteFile(filepath.Join(dir, "MCLive.cfg"), []byte(cfg), 0o644)
 	st, terr := runTLC(dir, "MCLive", workersN(), 30*time.Minute, nil, nil)
